@@ -692,6 +692,7 @@ func cmdCheck(args []string) {
 				cnames = append(cnames, c)
 			}
 			sort.Strings(cnames)
+			unknownKinds := 0
 			for _, c := range cnames {
 				name := "bounded." + bn
 				if c != "" {
@@ -708,6 +709,7 @@ func cmdCheck(args []string) {
 				if isKnown {
 					continue
 				}
+				unknownKinds++
 				rf := filepath.Join(replayDir, sanitize(name)+".txt")
 				os.WriteFile(rf, []byte(fmt.Sprintf("property: %s\nbounded stand-in: %s\nkind: %s\nbound: %s\ncases run: %d\nfailing inputs (run on the real functions):\n%s\n", cfg.ID, bn, c, br.Bound, br.Cases, strings.Join(cats[c], "\n"))), 0o644)
 				suffix := ""
@@ -715,6 +717,9 @@ func cmdCheck(args []string) {
 					suffix = " no-failing-input-found"
 				}
 				violations = append(violations, fmt.Sprintf("VIOLATION property=%s replay=%s obligation=%s (%s)%s", cfg.ID, rf, name, br.Status, suffix))
+			}
+			if unknownKinds == 0 {
+				boundedRes[len(boundedRes)-1].Status = "recorded findings only (every failing kind is listed in known_findings.txt)"
 			}
 		}
 	}
